@@ -419,7 +419,7 @@ def _same(a, b):
 
 
 @bounded(P, "expand-collapse-concat", "compact collocation datasets built directly (1..12 stored points per group, 1..40 pairs, one-to-many and "
-         "many-to-one, unsorted pairs, a channel dimension, NaNs, one dataset with more than 1000 pairs in the thorough tier), either group "
+         "many-to-one, unsorted pairs, a channel dimension, NaNs, plus one dataset of 45 x 60 points with more than 1000 pairs in shuffled order in either tier), either group "
          "as reference, lists of 1..4 datasets to concatenate; oracle: the definitions in the property statement; 40 (quick) / 300 (thorough) rounds")
 def bounded_ecc(rng, tier):
     import warnings
@@ -439,8 +439,10 @@ def bounded_ecc(rng, tier):
         return out
     for r in range(rounds):
         nprng = _np.random.RandomState(rng.randint(0, 2**31 - 1))
-        big = tier != "quick" and r == 0
-        sets = [_compact(nprng, rng, rng.randint(1, 12), rng.randint(1, 12), 1100 if big else rng.randint(1, 40)) for _ in range(rng.randint(1, 4))]
+        big = r == 0                     # the alternative row-assignment path of collapse() needs >= 1000 pairs (each pair once: 45 x 60 points)
+        sets = [_compact(nprng, rng, rng.randint(1, 12), rng.randint(1, 12), rng.randint(1, 40)) for _ in range(rng.randint(1, 4))]
+        while big and sets[0]["Collocations/pairs"].shape[1] < 1000:
+            sets[0] = _compact(nprng, rng, 45, 60, 2000)
         with warnings.catch_warnings():
             warnings.simplefilter("ignore")
             # expand: one row per pair carrying the values of that pair
